@@ -18,7 +18,7 @@ The model (`Model/Registry.lean`) is `src/registry.rs` branch by branch: a regis
 write-lock section of the body-bearing dispatch looks the function map up again".
 
 clause → theorem
-* tokens round-trip through escaping ........................ `escape_unescape`, `unescape_escape_wf`
+* tokens round-trip through escaping ........................ `escape_unescape`, `unescape_escape_wf`, `pointer_roundtrip`
 * escape-normalised key; borrowed fast path not observable .. `canonical_key_fast_path`
 * malformed ⇒ InvalidPointer ⇒ MethodNotFound, no mutation ... `malformed_is_not_found`, `malformed_never_mutates`, `invalid_pointer_code`
 * write then read returns the value ......................... `read_after_write`
@@ -66,6 +66,18 @@ example : (canonicalKey ['/', 'a', '/', 'b']).toOption = some ['/', 'a', '/', 'b
     (canonicalKey ['/', 'a', '~', '1', 'b', '/', '~', '0']).toOption = some ['/', 'a', '~', '1', 'b', '/', '~', '0'] ∧
     (canonicalKey ([] : List Char)).toOption = some ['/'] ∧ (canonicalKey ['/', '/']).toOption = some ['/', '/'] := by
   decide
+
+/-- Whole pointers round-trip too: parsing the canonical text of a token list gives the list back
+(all non-root lists except the single empty token: the pointer `/` is read as the root by this
+crate), and a canonical pointer is its own function-map key. -/
+theorem pointer_roundtrip (segs : List Tok) (hne : segs ≠ []) (h1 : segs ≠ [[]]) :
+    parsePointer (canonicalPointer segs) = .ok segs ∧
+    canonicalKey (canonicalPointer segs) = .ok (canonicalPointer segs) := by
+  have h := parse_canonical segs hne h1
+  exact ⟨h, by rw [canonical_key_fast_path, h]; rfl⟩
+
+example : (parsePointer (canonicalPointer [['a', '/', 'b'], [], ['~']])).toOption = some [['a', '/', 'b'], [], ['~']] ∧
+    canonicalPointer [['a', '/', 'b'], [], ['~']] = ['/', 'a', '~', '1', 'b', '/', '/', '~', '0'] := by decide
 
 /-- `RegistryError::InvalidPointer.code()` is `MethodNotFound` (= 6), read off the current source. -/
 theorem invalid_pointer_code :
